@@ -17,8 +17,10 @@ const MIME: [(&str, &str); 16] = [
     ("vcard", "text/vcard"), ("jpeg", "image/jpeg"), ("gif", "image/gif"), ("png", "image/png"), ("svg", "image/svg+xml"), ("woff", "font/woff"), ("woff2", "font/woff2"),
     ("json", "application/json"), ("pdf", "application/pdf"),
 ];
-const STEMS: [&str; 20] = ["index", "app", "main", "a", "ab", "abc", "A", "x.y", "a-b", "a_b", "v1", "data2", "README", "app.min", "guide.txt", "page.js", "data.json", "x.html", "doc.css", "index.html"];
-const DIRS: [&str; 8] = ["assets", "css", "js", "img", "a", "docs", "v1", "sub.dir"];
+const STEMS: [&str; 23] = ["index", "app", "main", "a", "ab", "abc", "A", "x.y", "a-b", "a_b", "v1", "data2", "README", "app.min", "guide.txt", "page.js", "data.json", "x.html", "doc.css", "index.html",
+    // consecutive dots inside a name are ordinary characters of a name (only a whole segment `..` means "parent")
+    "notes..v2", "a...b", "release-1..2"];
+const DIRS: [&str; 10] = ["assets", "css", "js", "img", "a", "docs", "v1", "sub.dir", "v1..2", "x...y"];
 
 #[derive(Clone, Debug)]
 struct FileDesc {
@@ -147,7 +149,34 @@ fn one(rep: &mut Report, case: u64, rng: &mut Rng, dir: &PathBuf, small: bool) {
     };
     // with a mount at "/" an ordinary route next to it must not collide with a file route
     let with_api = rng.bool() && !exp.keys().any(|k| k.starts_with("/api"));
-    let dpath = leak(dir.join("public").to_string_lossy().to_string());
+    // how the directory is named is the user's business: its plain path, a path with `.`/`..` in it, or a path through a symbolic link
+    // that lives at another depth (`/srv/www/current -> releases/v2/public`) - the mounted directory is the same
+    let dpath = match rng.below(5) {
+        0 => {
+            std::fs::create_dir_all(dir.join("detour").join("deeper")).unwrap();
+            rep.count("mount_path:with-dot-dot");
+            dir.join("detour").join("deeper").join("..").join("..").join("public")
+        }
+        1 => {
+            std::fs::create_dir_all(dir.join("srv").join("www")).unwrap();
+            let link = dir.join("srv").join("www").join("current");
+            match std::os::unix::fs::symlink("../../public", &link) {
+                Ok(()) => { rep.count("mount_path:through-deeper-symlink"); link }
+                Err(_) => dir.join("public"),
+            }
+        }
+        2 if files.iter().any(|f| f.rel.len() > 1) => {
+            // a link next to `public` whose target is a level up from what it names: `pub2 -> public/<d>/..`
+            let d = files.iter().find(|f| f.rel.len() > 1).map(|f| f.rel[0].clone()).unwrap();
+            let link = dir.join("pub2");
+            match std::os::unix::fs::symlink(format!("public/{d}/.."), &link) {
+                Ok(()) => { rep.count("mount_path:through-symlink-with-dot-dot"); link }
+                Err(_) => dir.join("public"),
+            }
+        }
+        _ => { rep.count("mount_path:plain"); dir.join("public") }
+    };
+    let dpath = leak(dpath.to_string_lossy().to_string());
     let omit2 = omit.clone();
     let built = catch(|| {
         let d = mount.Dir(dpath);
